@@ -180,6 +180,16 @@ func genSteps(t *rapid.T, c *H2Case, flow bool) {
 			for j := 0; j < ns; j++ {
 				s.Split = append(s.Split, rapid.IntRange(1, 30000).Draw(t, "split"))
 			}
+			// fragments may be empty: a HEADERS frame without any block octets followed by CONTINUATION (split point
+			// 0), a last CONTINUATION that only carries END_HEADERS (split point splitEmptyTail)
+			switch rapid.IntRange(0, 9).Draw(t, "emptyfrag") {
+			case 0:
+				s.Split = append(s.Split, splitEmptyTail)
+			case 1:
+				s.Split = append(s.Split, 0)
+			case 2:
+				s.Split = append(s.Split, 0, splitEmptyTail)
+			}
 			sort.Ints(s.Split)
 			s.End = rapid.IntRange(0, 3).Draw(t, "hend") == 0
 			s.Prio = rapid.IntRange(0, 4).Draw(t, "prio") == 0
@@ -610,7 +620,14 @@ func (e *endpoint) writeBlock(id uint32, hdrs []hpack.HeaderField, split []int, 
 			prev = p
 		}
 	}
+	emptyHead, emptyTail := false, false
 	for _, p := range split {
+		if p == 0 {
+			emptyHead = true
+		}
+		if p == splitEmptyTail {
+			emptyTail = true
+		}
 		if p > prev && p < len(block) {
 			cut(p)
 		}
@@ -618,6 +635,12 @@ func (e *endpoint) writeBlock(id uint32, hdrs []hpack.HeaderField, split []int, 
 	cut(len(block))
 	if len(frags) == 0 {
 		frags = [][]byte{{}}
+	}
+	if emptyHead {
+		frags = append([][]byte{{}}, frags...)
+	}
+	if emptyTail {
+		frags = append(frags, []byte{})
 	}
 	var pr http2.PriorityParam
 	if prio {
@@ -656,6 +679,9 @@ func (s *sent) slog(id uint32) *streamLog {
 }
 
 const keyPushCont = "C10:push-promise-continuation"
+
+// splitEmptyTail as a split point: the header block ends with a CONTINUATION frame that has no block octets
+const splitEmptyTail = 1 << 30
 const keyLoweredFrame = "C09:frame-size:lowered-with-queued-frames"
 
 type h2run struct {
